@@ -10,6 +10,7 @@
 (*        ReadOnly    the mutator raised ReadOnlyError                                       *)
 (*   C13  Operand     an operand's projection (container contents included) is unchanged     *)
 (*        CopyEq      a copy / deepcopy / CreateCopy() / pickle equals its source            *)
+(*   C09  Same        the recorded result equals the recorded reference (Python's own float operator on the raw numbers)  *)
 (*   C20  SimpleStr   a simple quantity's strings are its registered category, type, unit    *)
 EXTENDS Integers, Sequences, TLC, Json, IOUtils
 Trace == ndJsonDeserialize(IOEnv.TRACE_FILE)
@@ -28,6 +29,7 @@ Judge(ev) ==
     [] ev.op = "QPickle"   -> ev.eq /\ ev.hash1 = ev.hash2 /\ ev.desc1 = ev.desc2
     [] ev.op = "Operand"   -> ev.pre = ev.post
     [] ev.op = "CopyEq"    -> ev.eq /\ ~ev.ne /\ ev.desc1 = ev.desc2
+    [] ev.op = "Same"      -> ev.a = ev.b
     [] ev.op = "SimpleStr" -> ev.unit = ev.u /\ ev.category = ev.c /\ ev.qtype = ev.qt /\ ev.repr_shows /\ ev.str_shows
     [] OTHER -> FALSE
 Next == /\ l < Len(Trace)
